@@ -369,11 +369,12 @@ def fromCoeff (x : NExp) (c : Nat) : NExp :=
   else if x = .num 1 then .num c
   else .mul x (.num c)
 
-/-- `combine_monomial` on `m1 + m2` (same body). -/
+/-- `combine_monomial` on `m1 + m2`: the rewrite with `distrib_l` (right to left) needs the two
+bodies to be the same term (the Python raises otherwise; here the sum is returned unchanged). -/
 def combineMonomial (m1 m2 : NExp) : NExp :=
   let (b1, c1) := coeffForm m1
-  let (_, c2) := coeffForm m2
-  fromCoeff b1 (c1 + c2)
+  let (b2, c2) := coeffForm m2
+  if b1 = b2 then fromCoeff b1 (c1 + c2) else .add m1 m2
 
 /-- `norm_add_monomial` on `p + m`. -/
 def insM (one : Nat) : NExp → NExp → NExp
@@ -447,6 +448,40 @@ def norm (one : Nat) : NExp → NExp
   | .suc x => addP one (norm one x) (.num 1)
   | .add a b => addP one (norm one a) (norm one b)
   | .mul a b => mulP one (norm one a) (norm one b)
+
+/-! ### normal forms -/
+
+def lastFactor : NExp → NExp
+  | .mul _ a => a
+  | t => t
+
+def lastMono : NExp → NExp
+  | .add _ m => m
+  | t => t
+
+def isAtomE : NExp → Bool
+  | .atom _ _ => true
+  | _ => false
+
+/-- A monomial body: left-nested product of atoms, factors non-decreasing. -/
+def isBody (one : Nat) : NExp → Bool
+  | .atom _ _ => true
+  | .mul b a => isAtomE a && isBody one b && (compareAtom one (lastFactor b) a != .gt)
+  | _ => false
+
+/-- A monomial: a numeral >= 1, a body, or `body * c` with `c >= 2`. -/
+def isMono (one : Nat) : NExp → Bool
+  | .num n => decide (1 ≤ n)
+  | .mul b (.num c) => isBody one b && decide (2 ≤ c)
+  | t => isBody one t
+
+/-- A polynomial: left-nested sum of monomials, bodies strictly increasing. -/
+def isPoly (one : Nat) : NExp → Bool
+  | .add p m => isPoly one p && isMono one m && (compareMonomial one (lastMono p) m == .lt)
+  | t => isMono one t
+
+/-- The shape `norm_full` produces: `0` or a polynomial. -/
+def isNF (one : Nat) (t : NExp) : Bool := t == .num 0 || isPoly one t
 
 /-- Value in ℕ under a valuation of the atoms. -/
 def eval (ρ : Nat → Nat) : NExp → Nat
